@@ -48,7 +48,8 @@ theorem strip_dateTimeText (T : Tables) (hT : T.OK) (y m d h mi s : Nat) :
 
 /-- A-form: re-adapting the text of an adapted value fails, or gives a value with the same text -/
 theorem reset_u_value (E : Env) (hT : E.T.OK) (k : Kind) (hm : Modelled k = true) (hc : Coherent k = true)
-    (hw : WidthOK E.T k = true) (v : Native) (u : Str) (hv : ValueOf E.T k v) (hu : uOfValue E k v = .ok u) :
+    (hw : WidthOK E.T k = true) (v : Native) (u : Str) (hv : ValueOf E.T k v) (hu : uOfValue E k v = .ok u)
+    (hnone : v = .none → CoherentNone k = true) :
     adapt E k (.str u) = .ok none ∨ ∃ v', adapt E k (.str u) = .ok (some v') ∧ uOfValue E k v' = .ok u := by
   induction k generalizing v with
   | string b =>
@@ -77,15 +78,39 @@ theorem reset_u_value (E : Env) (hT : E.T.OK) (k : Kind) (hm : Modelled k = true
   | float sg => simp [Modelled] at hm
   | decimal sg => simp [Modelled] at hm
   | boolean tr fl ts fs =>
-    right
-    obtain ⟨b, rfl⟩ := hv
-    simp [Coherent] at hc
-    cases b
-    · simp only [uOfValue, serialize, pyTruthy, Bool.false_eq_true, if_false, Except.ok.injEq] at hu; subst hu
-      refine ⟨.bool false, ?_, by simp [uOfValue, serialize, pyTruthy]⟩
-      simp [adapt, hc.1, hc.2]
-    · simp only [uOfValue, serialize, pyTruthy, if_true, Except.ok.injEq] at hu; subst hu
-      exact ⟨.bool true, by simp [adapt], by simp [uOfValue, serialize, pyTruthy]⟩
+    rcases hv with rfl | ⟨b, rfl⟩
+    · -- None: text '' ; what '' adapts to must have text ''
+      simp only [uOfValue, Except.ok.injEq] at hu; subst hu
+      have hn := hnone rfl
+      simp only [CoherentNone] at hn
+      by_cases h1 : ([] == tr || ts.contains []) = true
+      · right
+        simp only [h1, if_true, beq_iff_eq] at hn
+        refine ⟨.bool true, ?_, by simp [uOfValue, serialize, pyTruthy, hn]⟩
+        have h1' : ([] = tr ∨ [] ∈ ts) := by simpa using h1
+        simp only [adapt]
+        rw [if_pos (by simpa using h1')]
+      · simp only [h1, Bool.false_eq_true, if_false] at hn
+        have h1' : ¬ ([] = tr ∨ [] ∈ ts) := by simpa using h1
+        by_cases h2 : ([] == fl || fs.contains []) = true
+        · right
+          simp only [h2, if_true, beq_iff_eq] at hn
+          have h2' : ([] = fl ∨ [] ∈ fs) := by simpa using h2
+          refine ⟨.bool false, ?_, by simp [uOfValue, serialize, pyTruthy, hn]⟩
+          simp only [adapt]
+          rw [if_neg (by simpa using h1'), if_pos (by simpa using h2')]
+        · left
+          have h2' : ¬ ([] = fl ∨ [] ∈ fs) := by simpa using h2
+          simp only [adapt]
+          rw [if_neg (by simpa using h1'), if_neg (by simpa using h2')]
+    · right
+      simp [Coherent] at hc
+      cases b
+      · simp only [uOfValue, serialize, pyTruthy, Bool.false_eq_true, if_false, Except.ok.injEq] at hu; subst hu
+        refine ⟨.bool false, ?_, by simp [uOfValue, serialize, pyTruthy]⟩
+        simp [adapt, hc.1, hc.2]
+      · simp only [uOfValue, serialize, pyTruthy, if_true, Except.ok.injEq] at hu; subst hu
+        exact ⟨.bool true, by simp [adapt], by simp [uOfValue, serialize, pyTruthy]⟩
   | date b =>
     rcases hv with rfl | ⟨y, m, d, rfl, hvd⟩ | ⟨y, m, d, a, b', c, us, rfl, hvd⟩
     · simp only [uOfValue, Except.ok.injEq] at hu; subst hu
@@ -115,7 +140,7 @@ theorem reset_u_value (E : Env) (hT : E.T.OK) (k : Kind) (hm : Modelled k = true
   | constrained c vd ih =>
     rw [uOfValue_constrained] at hu
     simp only [Modelled, Coherent, WidthOK] at hm hc hw
-    rcases ih hm hc hw v hv.1 hu with h | ⟨v', h1, h2⟩
+    rcases ih hm hc hw v hv.1 hu (fun h => by simpa [CoherentNone] using hnone h) with h | ⟨v', h1, h2⟩
     · left; simp [adapt, h]
     · by_cases hh : vd.holds v' = true
       · right; exact ⟨v', by simp [adapt, h1, hh], by rw [uOfValue_constrained]; exact h2⟩
@@ -200,7 +225,8 @@ theorem reset_value_value (E : Env) (hT : E.T.OK) (k : Kind) (hm : Modelled k = 
   | float sg => simp [Modelled] at hm
   | decimal sg => simp [Modelled] at hm
   | boolean tr fl ts fs =>
-    obtain ⟨b, rfl⟩ := hv
+    rcases hv with rfl | ⟨b, rfl⟩
+    · exact absurd rfl hne
     simp [Coherent] at hc
     cases b
     · simp only [uOfValue, serialize, pyTruthy, Bool.false_eq_true, if_false, Except.ok.injEq] at hu; subst hu
@@ -231,5 +257,56 @@ theorem reset_value_value (E : Env) (hT : E.T.OK) (k : Kind) (hm : Modelled k = 
     simp only [Modelled, Coherent, WidthOK] at hm hc hw
     have := ih hm hc hw v hv.1 (by simpa [ExactValue] using hex) hne hu
     simp [adapt, this, hv.2]
+
+
+/-- text never adapts to None -/
+theorem adapt_str_ne_none (E : Env) (k : Kind) (s : Str) (v : Native) (h : adapt E k (.str s) = .ok (some v)) :
+    v ≠ .none := by
+  induction k generalizing v with
+  | string b => simp only [adapt] at h; simp at h; subst h; simp
+  | integer sg w =>
+    simp only [adapt] at h
+    split at h
+    · simp at h
+    · simp only [Except.ok.injEq] at h
+      rw [checkSigned_some _ _ _ _ h]; simp
+  | float sg =>
+    simp only [adapt] at h
+    obtain ⟨t, ht⟩ := adaptTok_value _ _ _ _ _ h
+    simp at ht; subst ht; simp
+  | decimal sg =>
+    simp only [adapt] at h
+    obtain ⟨t, ht⟩ := adaptTok_value _ _ _ _ _ h
+    simp at ht; subst ht; simp
+  | boolean tr fl ts fs =>
+    simp only [adapt] at h
+    split at h
+    · simp at h; subst h; simp
+    · split at h
+      · simp at h; subst h; simp
+      · simp at h
+  | date b =>
+    simp only [adapt, Except.ok.injEq] at h
+    obtain ⟨y, m, d, hv, _⟩ := (adaptTemporalText_value _ _ _ _ h).1 rfl
+    subst hv; simp
+  | time b =>
+    simp only [adapt, Except.ok.injEq] at h
+    obtain ⟨a, b', c, hv, _⟩ := (adaptTemporalText_value _ _ _ _ h).2.1 rfl
+    subst hv; simp
+  | datetime b =>
+    simp only [adapt, Except.ok.injEq] at h
+    obtain ⟨y, m, d, a, b', c, hv, _⟩ := (adaptTemporalText_value _ _ _ _ h).2.2 (by omega)
+    subst hv; simp
+  | constrained c vd ih =>
+    simp only [adapt] at h
+    split at h
+    · simp at h
+    · simp at h
+    · rename_i w hw
+      split at h
+      · simp only [Except.ok.injEq, Option.some.injEq] at h
+        subst h
+        exact ih w hw
+      · simp at h
 
 end Flatland.Scalar
